@@ -68,7 +68,8 @@ enum Act {
     MintFrom { minter: usize, to: usize, amt: Amt },
     Transfer { from: usize, to: usize, amt: Amt },
     /// expiration = current ledger + `exp` - 1 (exp 21: beyond the minimum temporary-entry TTL);
-    /// 200 / 201 stand for 250,000 / 300,000 ledgers ahead (both more than two weeks)
+    /// 200 / 201 stand for 250,000 / 300,000 ledgers ahead (both more than two weeks), 202 for
+    /// ledger u32::MAX (further away than any ledger entry can live)
     Approve { from: usize, spender: usize, amt: Amt, exp: u8 },
     TransferFrom { spender: usize, from: usize, to: usize, amt: Amt },
     Burn { from: usize, amt: Amt },
@@ -116,11 +117,13 @@ impl Scenario for C12 {
     type A = Act;
 
     fn id(&self) -> &'static str { "C12" }
-    fn n_configs(&self) -> usize { 1 }
-    fn config_label(&self, _: usize) -> String { "interchain token, owner O, constructor minter M, accounts A B C".into() }
+    fn n_configs(&self) -> usize { 2 }
+    fn config_label(&self, c: usize) -> String {
+        if c == 0 { "interchain token, owner O, constructor minter M, accounts A B C".into() } else { "interchain token whose constructor minter is the owner O itself, accounts A B C".into() }
+    }
     fn world<'a>(&self, ctx: &'a Ctx) -> &'a World { &ctx.w }
 
-    fn build(&self, _c: usize) -> (Ctx, Model) {
+    fn build(&self, c: usize) -> (Ctx, Model) {
         let w = World::new();
         let env = &w.env;
         let addr: Vec<Address> = (0..5).map(|_| env.register(Principal, ())).collect();
@@ -128,7 +131,7 @@ impl Scenario for C12 {
             interchain_token::InterchainToken,
             (
                 addr[O].clone(),
-                Some(addr[M].clone()),
+                Some(addr[if c == 1 { O } else { M }].clone()),
                 to_val(env, &sbytes(&[7u8; 32])),
                 to_val(env, &metadata_scval(b"Token", b"TOK", 7)),
             ),
@@ -136,7 +139,7 @@ impl Scenario for C12 {
         let seq = w.seq();
         (
             Ctx { w, tok, addr },
-            Model { bal: [0; 3], allow: BTreeMap::new(), minters: vec![O, M], owner: O, seq, supply: (0, 0), advances: 0 },
+            Model { bal: [0; 3], allow: BTreeMap::new(), minters: if c == 1 { vec![O] } else { vec![O, M] }, owner: O, seq, supply: (0, 0), advances: 0 },
         )
     }
 
@@ -162,7 +165,7 @@ impl Scenario for C12 {
         let apairs: Vec<(usize, usize)> = if t { vec![(A, B), (B, C), (A, A)] } else { vec![(A, B)] };
         for (from, spender) in apairs {
             for amt in [Amt::Five, Amt::One, Amt::Zero, Amt::Neg, Amt::Max] {
-                for exp in [0u8, 1, 2, 3, 21, 200, 201] {
+                for exp in [0u8, 1, 2, 3, 21, 200, 201, 202] {
                     // an allowance of exactly i128::MAX is an ordinary allowance
                     if amt == Amt::Max && exp != 3 { continue; }
                     if !t && (amt == Amt::One || (amt == Amt::Neg && exp != 1)) { continue; }
@@ -276,8 +279,9 @@ impl Scenario for C12 {
             Act::Approve { from, spender, amt, exp } => {
                 out.kind = "approve";
                 let x = resolve(m, *amt, *from, None);
-                let e = m.seq + match *exp { 200 => 250_001, 201 => 300_001, x => x as u32 } - 1;
-                let want = x >= 0 && !(x > 0 && e < m.seq);
+                let e = if *exp == 202 { u32::MAX } else { m.seq + match *exp { 200 => 250_001, 201 => 300_001, x => x as u32 } - 1 };
+                // an expiration beyond the longest lifetime a ledger entry can have cannot be honoured
+                let want = x >= 0 && !(x > 0 && e < m.seq) && !(x > 0 && *exp == 202);
                 let c = w.call(
                     &ctx.tok,
                     "approve",
@@ -395,18 +399,29 @@ impl Scenario for C12 {
         let w = &ctx.w;
         let addresses = [ctx.addr[A].clone(), ctx.addr[B].clone(), ctx.tok.clone()];
         let targets: [(&Address, &str, &[&str]); 1] = [(&ctx.tok, "/repo/contracts/interchain-token/src", &axmc::inventory::TOKEN_KNOWN)];
-        for (contract, func, args) in axmc::inventory::unknown_calls(w, "C12", &targets, &addresses, 32) {
-            let snap = w.snap();
-            let call = w.call(&contract, &func, &args, Auth::Nobody);
-            if call.ok {
-                let mut o = StepOut::default();
-                self.token_queries(ctx, m, &mut o);
-                out.checks += o.checks;
-                for mm in o.mismatches {
-                    out.fail("unknown-entry-point.changed-token-state", format!("after `{}` (not among the known entry points) was called with nobody's authorisation: {} :: {}", func, mm.sig, mm.detail));
+        let owner = [ctx.addr[m.owner].clone()];
+        for (contract, func, args) in axmc::inventory::unknown_calls(w, "C12", &targets, &addresses, 48) {
+            // with nobody's authorisation nothing at all may change; with only the owner's, whatever
+            // else such a function does, balances, supply and allowances are not the owner's to change
+            for by_owner in [false, true] {
+                let snap = w.snap();
+                let call = w.call(&contract, &func, &args, if by_owner { Auth::By(&owner) } else { Auth::Nobody });
+                if call.ok {
+                    let mut o = StepOut::default();
+                    self.token_queries(ctx, m, &mut o);
+                    out.checks += o.checks;
+                    for mm in o.mismatches {
+                        if by_owner && !(mm.sig.starts_with("probe.balance") || mm.sig.starts_with("probe.supply") || mm.sig.starts_with("probe.allowance") || mm.sig.starts_with("probe.negative")) {
+                            continue;
+                        }
+                        out.fail(
+                            "unknown-entry-point.changed-token-state",
+                            format!("after `{}` (not among the known entry points) was called with {} authorisation: {} :: {}", func, if by_owner { "only the owner's" } else { "nobody's" }, mm.sig, mm.detail),
+                        );
+                    }
                 }
+                w.restore(&snap);
             }
-            w.restore(&snap);
         }
     }
 
@@ -454,7 +469,7 @@ fn main() {
         let mut o = Opts::new(tier, if thorough { 7 } else { 4 });
         o.min_depth = 3;
         o.wall_cap_s = if thorough { 600.0 } else { 100.0 };
-        o.rule = "all sequences over mint (owner), mint_from (constructor minter, non-minter), transfer, approve (expiration = ledger-1, ledger, ledger+1, ledger+2, ledger+20, ledger+250000, ledger+300000), transfer_from, burn, burn_from with amounts chosen relative to the state {-1, 0, 1, 5, balance, balance+1, allowance, allowance+1, i128::MAX}, add/remove minter (incl. removing the owner's own minter role), set_admin / transfer_ownership, advance 1, 2, 17 or 260000 ledgers; accounts A, B, C; after every new state balance() of all accounts, allowance() of all 9 ordered pairs, is_minter, owner() and sum(balances) == minted - burned are compared with the reference token".into();
+        o.rule = "all sequences over mint (owner), mint_from (constructor minter, non-minter), transfer, approve (expiration = ledger-1, ledger, ledger+1, ledger+2, ledger+20, ledger+250000, ledger+300000, u32::MAX), transfer_from, burn, burn_from with amounts chosen relative to the state {-1, 0, 1, 5, balance, balance+1, allowance, allowance+1, i128::MAX}, add/remove minter (incl. removing the owner's own minter role), set_admin / transfer_ownership, advance 1, 2, 17 or 260000 ledgers; accounts A, B, C; after every new state balance() of all accounts, allowance() of all 9 ordered pairs, is_minter, owner() and sum(balances) == minted - burned are compared with the reference token".into();
         (C12 { thorough }, o)
     });
 }
